@@ -324,6 +324,9 @@ func (r *rec) source1(corpus []string, rawEp bool) string {
 	if r.rng.Intn(40) == 0 {
 		return gen.MaxLenFEN(r.rng)
 	}
+	if r.rng.Intn(14) == 0 {
+		return gen.CornerTrade(r.rng)
+	}
 	pr := profiles[r.rng.Intn(len(profiles))]
 	pr.RawEp = rawEp
 	return gen.RandomValid(r.rng, pr)
